@@ -874,8 +874,41 @@ func genC07Twin(seed uint64, tier string) *world.Scenario {
 			sc.Faults = append(sc.Faults, world.FaultSpec{Op: "read", Target: "fan:" + f.ID + ":pwm", Nth: kernel.Pick(hr, 1, 2, 3, 1, 2, 3, 4, 5, 6, hr.Range(1, 30)), Count: kernel.Pick(hr, 6, 40, 1<<30, 1<<30, 1<<30),
 				Kind: kernel.Pick(hr, "ebusy", "ebusy", "ebusy", "eagain", "eagain", "eio"), OnlyFlags: "upd"})
 		}
+		if f.Kind == "hwmon" && f.PwmMap != nil && hr.Bool(0.5) {
+			// the sharpest form of it: the fan sits at the value the hotter world will ask for, one cooler cycle
+			// changes that, and from then on the attribute answers EBUSY to every read - whoever remembers
+			// "what the fan showed last" remembers the value from before that cycle
+			lo, hi := refFanLimits(f, seededCurve(sc, f.ID))
+			req := lo + int(float64(c2)/255*float64(hi-lo))
+			if k := refmodel.Nearest(refmodel.SupportedInputs(m), req); len(k) > 0 {
+				f.Driver.InitPwm = world.Quantise(&f.Driver, k[0])
+			}
+			sc.Params["preC"] = float64(hr.Range(0, max(0, c1-10)))
+			sc.Params["preTicks"] = float64(hr.Range(4, 8))
+			// (the first control cycle reads the value twice, then writes)
+			sc.Faults = []world.FaultSpec{{Op: "read", Target: "fan:" + f.ID + ":pwm", Nth: kernel.Pick(hr, 2, 2, 2, 4), Count: 1 << 30,
+				Kind: kernel.Pick(hr, "ebusy", "eagain"), OnlyFlags: "upd"}}
+			sc.Variant += "|busy-after-first-write"
+		}
 		sc.Horizon += world.Dur(time.Duration(sc.Params["preTicks"]) * sc.Tick.D())
 		sc.Variant += "|history"
+	} else if hr.Bool(0.5) {
+		// both worlds hop between the same two or three loads every cycle or two - the hotter world a little
+		// hotter at every moment - while the PWM attribute cannot be read for a few cycles now and then
+		n := hr.Range(2, 3)
+		sc.Params["hopN"] = float64(n)
+		for i := 0; i < n; i++ {
+			sc.Params[fmt.Sprintf("hopV%d", i)] = float64(hr.Range(0, 250))
+		}
+		sc.Params["hopD"] = float64(kernel.Pick(hr, 1, 1, 2, 3, 5))
+		sc.Params["hopEvery"] = float64(hr.Range(1, 2))
+		sc.Params["hopSeed"] = float64(hr.Intn(1 << 30))
+		for j, k := 0, hr.Range(1, 4); j < k; j++ {
+			sc.Faults = append(sc.Faults, world.FaultSpec{Op: "read", Target: "fan:" + f.ID + ":pwm", Nth: hr.Range(2, 60), Count: hr.Range(1, 8),
+				Kind: kernel.Pick(hr, "ebusy", "eagain", "eio", "missing"), OnlyFlags: "upd"})
+		}
+		sc.Horizon += sec(10)
+		sc.Variant += "|hopping"
 	}
 	return sc
 }
@@ -898,6 +931,20 @@ func runC07Twin(t *testing.T, sc *world.Scenario) *check.Result {
 		if pt, ok := sc.Params["preTicks"]; ok {
 			at := 3500*time.Millisecond + time.Duration(pt)*sc.Tick.D()
 			s2.Sensors[0].Prog = world.TempProg{Kind: "steps", Base: tempForCurve(int(sc.Params["preC"])), Steps: []world.TempStep{{T: world.Dur(at), V: temp}}}
+		}
+		if n := int(sc.Params["hopN"]); n > 0 {
+			d := 0
+			if temp == int(sc.Params["t2"]) && sc.Params["t2"] != sc.Params["t1"] {
+				d = int(sc.Params["hopD"])
+			}
+			val := func(i int) int { return tempForCurve(min(255, int(sc.Params[fmt.Sprintf("hopV%d", i%n)])+d)) }
+			prog := world.TempProg{Kind: "steps", Base: val(0)}
+			k := 0
+			for t := 3 * time.Second; t < s2.Horizon.D(); t += time.Duration(sc.Params["hopEvery"]) * sc.Tick.D() {
+				k++
+				prog.Steps = append(prog.Steps, world.TempStep{T: world.Dur(t), V: val(k)})
+			}
+			s2.Sensors[0].Prog = prog
 		}
 		var cycles []*Cycle
 		res := runL1(t, s2, func(st *stage.Stage, res *check.Result) []Oracle {
